@@ -26,6 +26,7 @@ package shimagent
 //@   requires s != nil && inv(s) && unheld(s)
 //@   modifies mstate(addrof(s.mu))
 //@   ensures unheld(s)
+//@   ensures [one-critical-section] calls(RWMutex.Lock) == old(calls(RWMutex.Lock)) + 1 && calls(RWMutex.Unlock) == old(calls(RWMutex.Unlock)) + 1
 //@   ensures [locked-refuses] old(s.locked) ==> (result == errAgentLocked && calls(Closer.Close) == old(calls(Closer.Close)))
 //@   ensures !old(s.locked) ==> (calls(Closer.Close) == old(calls(Closer.Close)) + 1 && result == ret(Closer.Close, old(calls(Closer.Close)), 0))
 
@@ -33,6 +34,7 @@ package shimagent
 //@   requires s != nil && inv(s) && unheld(s)
 //@   modifies mstate(addrof(s.mu))
 //@   ensures unheld(s)
+//@   ensures [one-critical-section] calls(RWMutex.Lock) == old(calls(RWMutex.Lock)) + 1 && calls(RWMutex.Unlock) == old(calls(RWMutex.Unlock)) + 1
 //@   ensures [locked-refuses] old(s.locked) ==> (err == errAgentLocked && calls(Agent.Add) == old(calls(Agent.Add)))
 //@   ensures [pass-through] !old(s.locked) ==> (calls(Agent.Add) == old(calls(Agent.Add)) + 1 && arg(Agent.Add, old(calls(Agent.Add)), 1) == key &&
 //@     arg(Agent.Add, old(calls(Agent.Add)), 0) == s.agent && err == ret(Agent.Add, old(calls(Agent.Add)), 0))
@@ -41,6 +43,7 @@ package shimagent
 //@   requires s != nil && inv(s) && unheld(s)
 //@   modifies mstate(addrof(s.mu)), s.locked
 //@   ensures unheld(s)
+//@   ensures [one-critical-section] calls(RWMutex.Lock) == old(calls(RWMutex.Lock)) + 1 && calls(RWMutex.Unlock) == old(calls(RWMutex.Unlock)) + 1
 //@   ensures [locked-refuses] old(s.locked) ==> (result == errAgentLocked && s.locked && calls(Agent.Lock) == old(calls(Agent.Lock)))
 //@   ensures [flag-follows-the-underlying-agent] !old(s.locked) ==> (calls(Agent.Lock) == old(calls(Agent.Lock)) + 1 &&
 //@     arg(Agent.Lock, old(calls(Agent.Lock)), 1) == passphrase && result == ret(Agent.Lock, old(calls(Agent.Lock)), 0) &&
@@ -50,6 +53,7 @@ package shimagent
 //@   requires s != nil && inv(s) && unheld(s)
 //@   modifies mstate(addrof(s.mu)), s.locked
 //@   ensures unheld(s)
+//@   ensures [one-critical-section] calls(RWMutex.Lock) == old(calls(RWMutex.Lock)) + 1 && calls(RWMutex.Unlock) == old(calls(RWMutex.Unlock)) + 1
 //@   ensures [unlock-needs-a-locked-agent] !old(s.locked) ==> (result == errAgentUnlocked && !s.locked && calls(Agent.Unlock) == old(calls(Agent.Unlock)))
 //@   ensures [flag-follows-the-underlying-agent] old(s.locked) ==> (calls(Agent.Unlock) == old(calls(Agent.Unlock)) + 1 &&
 //@     arg(Agent.Unlock, old(calls(Agent.Unlock)), 1) == passphrase && result == ret(Agent.Unlock, old(calls(Agent.Unlock)), 0) &&
@@ -59,6 +63,7 @@ package shimagent
 //@   requires s != nil && inv(s) && unheld(s) && inv2(s)
 //@   modifies mstate(addrof(s.mu)), s.certs, s.upstreamSSHCACertCache
 //@   ensures unheld(s) && inv(s) && inv2(s)
+//@   ensures [one-critical-section] calls(RWMutex.Lock) == old(calls(RWMutex.Lock)) + 1 && calls(RWMutex.Unlock) == old(calls(RWMutex.Unlock)) + 1
 //@   ensures [locked-refuses] old(s.locked) ==> (result == errAgentLocked && calls(Agent.RemoveAll) == old(calls(Agent.RemoveAll)) &&
 //@     s.certs == old(s.certs) && s.upstreamSSHCACertCache == old(s.upstreamSSHCACertCache))
 //@   ensures [both-tables-emptied] !old(s.locked) ==> (fresh(s.certs) && fresh(s.upstreamSSHCACertCache) &&
@@ -69,6 +74,7 @@ package shimagent
 //@   requires s != nil && inv(s) && unheld(s)
 //@   modifies mstate(addrof(s.mu))
 //@   ensures unheld(s)
+//@   ensures [one-critical-section] calls(RWMutex.Lock) == old(calls(RWMutex.Lock)) + 1 && calls(RWMutex.Unlock) == old(calls(RWMutex.Unlock)) + 1
 
 //@ # ---------------------------------------------------------------- C20: per-code condition variables
 //@ func (*Server).Broadcast(s, msg)
@@ -136,6 +142,7 @@ package shimagent
 //@   requires s != nil && inv(s) && unheld(s) && inv2(s)
 //@   modifies mstate(addrof(s.mu)), mapof(s.certs), mapof(s.upstreamSSHCACertCache)
 //@   ensures unheld(s) && inv(s) && inv2(s)
+//@   ensures [one-critical-section] calls(RWMutex.Lock) == old(calls(RWMutex.Lock)) + 1 && calls(RWMutex.Unlock) == old(calls(RWMutex.Unlock)) + 1
 //@   ensures [locked-refuses] old(s.locked) ==> (result == errAgentLocked && calls(remove) == old(calls(remove)) && calls(Agent.Remove) == old(calls(Agent.Remove)) &&
 //@     mapdom(s.certs) == old(mapdom(s.certs)) && mapval(s.certs) == old(mapval(s.certs)) && mapdom(s.upstreamSSHCACertCache) == old(mapdom(s.upstreamSSHCACertCache)))
 //@   ensures [nil-key-refused] (!old(s.locked) && key == nil) ==> (result != nil && calls(remove) == old(calls(remove)))
@@ -159,6 +166,7 @@ package shimagent
 //@   let g0 = old(calls(ExtendedAgent.SignWithFlags))
 //@   let c0 = old(calls(CastSSHPublicKeyToCertificate))
 //@   ensures unheld(s) && inv(s) && inv2(s)
+//@   ensures [one-critical-section] calls(RWMutex.Lock) == old(calls(RWMutex.Lock)) + 1 && calls(RWMutex.Unlock) == old(calls(RWMutex.Unlock)) + 1
 //@   ensures [locked-refuses] old(s.locked) ==> (result0 == nil && result1 != nil && calls(ExtendedAgent.SignWithFlags) == g0 && calls(filter) == f0)
 //@   ensures [nil-key-refused] (!old(s.locked) && key == nil) ==> (result0 == nil && result1 != nil && calls(ExtendedAgent.SignWithFlags) == g0 && calls(filter) == f0)
 //@   ensures [purge-before-signing] (!old(s.locked) && key != nil) ==> (calls(filter) == f0 + 1 && arg(filter, f0, 0) == s)
@@ -187,6 +195,7 @@ package shimagent
 //@   let w0 = old(calls(shimagent.write))
 //@   let r0 = old(calls(shimagent.read))
 //@   ensures unheld(s)
+//@   ensures [one-critical-section] calls(RWMutex.Lock) == old(calls(RWMutex.Lock)) + 1 && calls(RWMutex.Unlock) == old(calls(RWMutex.Unlock)) + 1
 //@   ensures [request-relayed-as-one-frame] calls(shimagent.write) == w0 + 1 && pl(arg(shimagent.write, w0, 0)) == pl(s.conn) && arg(shimagent.write, w0, 1) == req
 //@   ensures [write-failure-surfaces] ret(shimagent.write, w0, 0) != nil ==> (resp == nil && err == ret(shimagent.write, w0, 0) && calls(shimagent.read) == r0)
 //@   ensures [reply-is-the-next-frame] ret(shimagent.write, w0, 0) == nil ==> (calls(shimagent.read) == r0 + 1 && pl(arg(shimagent.read, r0, 0)) == pl(s.conn) &&
@@ -223,6 +232,7 @@ package shimagent
 //@   let l0 = old(calls(Agent.List))
 //@   let c0 = old(calls(CastSSHPublicKeyToCertificate))
 //@   ensures unheld(s) && inv(s) && inv2(s)
+//@   ensures [one-critical-section] calls(RWMutex.Lock) == old(calls(RWMutex.Lock)) + 1 && calls(RWMutex.Unlock) == old(calls(RWMutex.Unlock)) + 1
 //@   ensures [locked-refuses] old(s.locked) ==> (result == errAgentLocked && calls(Agent.List) == l0 &&
 //@     mapdom(s.certs) == old(mapdom(s.certs)) && mapval(s.certs) == old(mapval(s.certs)))
 //@   ensures [nil-key-refused] (!old(s.locked) && key == nil) ==> (result != nil && calls(Agent.List) == l0)
@@ -272,6 +282,7 @@ package shimagent
 //@   modifies mstate(addrof(s.mu)), mapof(s.certs), mapof(s.upstreamSSHCACertCache)
 //@   let f0 = old(calls(filter))
 //@   ensures unheld(s) && inv(s) && inv2(s)
+//@   ensures [one-critical-section] calls(RWMutex.Lock) == old(calls(RWMutex.Lock)) + 1 && calls(RWMutex.Unlock) == old(calls(RWMutex.Unlock)) + 1
 //@   ensures [locked-lists-nothing] old(s.locked) ==> (len(result0) == 0 && result1 == nil && calls(filter) == f0 &&
 //@     mapdom(s.certs) == old(mapdom(s.certs)) && mapdom(s.upstreamSSHCACertCache) == old(mapdom(s.upstreamSSHCACertCache)))
 //@   ensures [purge-before-listing] !old(s.locked) ==> (calls(filter) == f0 + 1 && arg(filter, f0, 0) == s)
@@ -313,6 +324,7 @@ package shimagent
 //@   let f0 = old(calls(filter))
 //@   let g0 = old(calls(Agent.Signers))
 //@   ensures unheld(s) && inv(s) && inv2(s)
+//@   ensures [one-critical-section] calls(RWMutex.Lock) == old(calls(RWMutex.Lock)) + 1 && calls(RWMutex.Unlock) == old(calls(RWMutex.Unlock)) + 1
 //@   ensures [locked-refuses] old(s.locked) ==> (result0 == nil && result1 != nil && calls(filter) == f0 && calls(Agent.Signers) == g0 &&
 //@     mapdom(s.certs) == old(mapdom(s.certs)) && mapdom(s.upstreamSSHCACertCache) == old(mapdom(s.upstreamSSHCACertCache)))
 //@   ensures [purge-before-answering] !old(s.locked) ==> (calls(filter) == f0 + 1 && arg(filter, f0, 0) == s)
